@@ -112,6 +112,19 @@ def retype(df, seed):
     return out
 
 
+def co_resident_non_partner_parents(df):
+    """Is there a child whose two parents both live in its household and are not each other's partner?"""
+    pos = {int(p): i for i, p in enumerate(df["p_id"].tolist())}
+    hh = df["hh_id"].tolist()
+    einst = df["p_id_einstandspartner"].tolist()
+    for i, (a, b) in enumerate(zip(df["p_id_elternteil_1"].tolist(), df["p_id_elternteil_2"].tolist())):
+        if a >= 0 and b >= 0 and a in pos and b in pos:
+            ia, ib = pos[int(a)], pos[int(b)]
+            if hh[ia] == hh[i] == hh[ib] and einst[ia] != b:
+                return True
+    return False
+
+
 def check(df, date, perm, label, lab_seed, opts=None):
     opts = opts or {}
     debug = bool(opts.get("debug"))
@@ -143,6 +156,8 @@ def check(df, date, perm, label, lab_seed, opts=None):
     if diffs:
         first = diffs[0]  # nodes are in topological order: the most upstream difference
         d = dict(first)
+        if d["column"] == "fg_id" and co_resident_non_partner_parents(df):
+            d["column"] = "fg_id|child-of-two-co-resident-parents-who-are-not-partners"
         fails.append(core.Failure(f"{d['kind']}:{d['column']}",
                                   f"{date}: {d['column']} differs after row permutation ({d})"
                                   f"; {len(diffs)} node(s) differ in total"))
